@@ -438,6 +438,15 @@ class Program:
     def _b_tuple(self, n):
         return evaluatable_tuple(*[self.ref(m) for m in n["items"]])
 
+    def _b_dsclass(self, n):
+        from labrea import datasetclass
+
+        mixin = type(n["name"] + "Mixin", (), {nm: self.ref(m) for nm, m in n["mixin"]})
+        body = {nm: self.ref(m) for nm, m in n["fields"] + n["plain"]}
+        body["__annotations__"] = {nm: object for nm, _ in n["fields"]}
+        body["__labsim_fields__"] = sorted(nm for part in ("fields", "plain", "mixin") for nm, _ in n[part])
+        return datasetclass(type(n["name"], (mixin,), body))
+
     def _b_dict(self, n):
         return evaluatable_dict({key: self.ref(m) for key, m in n["items"]})
 
